@@ -443,7 +443,7 @@ func ruleBuildPath(rule string) func(*Ctx) {
 		}
 		hdr := loops[0].header
 		for _, closed := range []bool{true, false} {
-			ex := &explorer{c: c, f: f, atoms: map[string]absVal{"isOpen": boolVal(!closed)}, stop: func(b *ssa.BasicBlock) bool { return b == hdr }}
+			ex := &explorer{c: c, f: f, atoms: map[string]absVal{"isOpen": boolVal(!closed)}, stop: func(b *ssa.BasicBlock) bool { return b == hdr }, canon: canonParams(f, "c", "op", "reverse", "isOpen", "path")}
 			outs := ex.explore(nil)
 			bad := ""
 			rejects := []string{"(op == nil)", "(op.next == op)"}
@@ -481,7 +481,7 @@ func ruleBuildPath(rule string) func(*Ctx) {
 				"a closed solution path must have at least 3 vertices; rings of one or two points must be refused")
 		}
 		// appends inside the loop are guarded by `op2.pt != lastPt`
-		as := appendStores(f, func(a ssa.Value) bool { p, ok := a.(*ssa.Parameter); return ok && p.Name() == "path" })
+		as := appendStores(f, func(a ssa.Value) bool { return a == ssa.Value(f.Params[4]) })
 		inLoop := 0
 		for i, a := range as {
 			if !loops[0].blocks[a.store.Block()] {
